@@ -52,9 +52,9 @@ var errStop = errors.New("stop")
 // Dev are named deviation switches: each reproduces one recorded defect of
 // the implementation, so that a disagreement can be attributed to it.
 type Dev struct {
-	SubscriptSkipsNull    bool // R1: a[i] drops JSON null elements
-	UnaryExistsShortcut   bool // R6: exists-mode unary +/- accepts non-numeric operands
-	IsUnknownSwallowsHard bool // is unknown maps a hard error of its operand to true
+	SubscriptSkipsNull     bool // R1: a[i] drops JSON null elements
+	UnaryExistsShortcut    bool // R6: exists-mode unary +/- accepts non-numeric operands
+	IsUnknownSwallowsHard  bool // is unknown maps a hard error of its operand to true
 	DatetimeVsOtherInvalid bool // R10: comparing a datetime with a non-datetime is an ErrInvalid error
 }
 
@@ -67,14 +67,14 @@ type Options struct {
 }
 
 type env struct {
-	root, cur any
-	last      int
-	vars      map[string]any
-	lax       bool
-	ignore    bool
-	useTZ     bool
-	zone      *timeLocation
-	dev       Dev
+	root, cur   any
+	last        int
+	vars        map[string]any
+	lax         bool
+	ignore      bool
+	useTZ       bool
+	zone        *timeLocation
+	dev         Dev
 	existsDepth int // >0 while evaluating a lax exists() operand (early-exit mode)
 
 	script []int
@@ -464,9 +464,7 @@ func (e *env) step(n ast.Node, item any, unwrap bool, out func(any) error) error
 		arr, ok := item.([]any)
 		if !ok {
 			if !e.lax {
-				if e.ignore {
-					return unspec("strict array subscript on a non-array below .**")
-				}
+				// also below .**: only member accessors skip there
 				return soft("array accessor on non-array")
 			}
 			arr = []any{item}
